@@ -83,7 +83,10 @@ class ExtractSpec(object):
                 s0 = s1.copy(); s0.assume(z3.And(s0.dhas(rec, Val.s(k)), F(k)))
                 for s2, keep, el in generic(ex, s0, e, Val.s(k)):
                     if el is None or el[0] != 'val':
-                        self.obl.append(('map/never_raises_on_a_kept_key', s2, z3.BoolVal(False), ('normal',))); continue
+                        # the data copy of a kept key may fail (ordinary) -- only when not using direct access
+                        self.obl.append(('map/raises_on_a_kept_key_only_when_copying', s2,
+                                         z3.And(z3.Not(truthy(s2.lookup('direct_access'))), is_exc(el[1])) if el is not None and el[0] == 'exc' else z3.BoolVal(False), ('normal',)))
+                        self.may_raise = True; continue
                     o_ = el[1]; nd = [n for n in s2.g['notes'] if n[0] in ('get_data', 'get_data_direct')]
                     direct = truthy(s2.lookup('direct_access'))
                     ok = z3.And(Val.is_ref(o_), TYP(Val.addr(o_)) == K('Output'), s2.rd(o_, 'key') == Val.s(k))
@@ -95,6 +98,8 @@ class ExtractSpec(object):
                     self.obl.append(('map/element_is_Output_of_key_and_its_data_copy_unless_direct', s2, ok, ('normal',)))
                     self.obl.append(('map/no_condition_drops_a_kept_key', s2, keep, ('normal',)))
                 o = s1.alloc('extracted_outputs'); s1.wr(o, 'of', rec); s1.set_seq(o, fresh('outputs', SeqV)); outs.append((s1, ('val', o)))
+                if getattr(self, 'may_raise', False):
+                    s9 = s1.copy(); s9.assume(z3.Not(truthy(s9.lookup('direct_access')))); outs.append((s9, ('exc', s9.sym_exc(ordinary=True, label='exc_copy'))))
             else:
                 return None
         return outs
@@ -113,9 +118,9 @@ def extract(props=None):
     for a, s_, c, oc_ in spec.obl:
         obl.append(Obl('C03/%s/%s' % (U, a), P, s_, c, oc_))
     for s, oc in paths:
-        ok = z3.BoolVal(oc[0] == 'return')
-        if oc[0] == 'return':
-            ok = z3.And(ok, Val.is_ref(oc[1]), TYP(Val.addr(oc[1])) == K('extracted_outputs'), s.rd(oc[1], 'of') == rec)
+        if oc[0] == 'raise':
+            obl.append(Obl('C04/%s/direct_access_never_raises_copying_access_raises_only_ordinary' % U, ('C04', 'C03', 'C18'), s, z3.And(z3.Not(da), is_exc(oc[1])), oc)); continue
+        ok = z3.And(Val.is_ref(oc[1]), TYP(Val.addr(oc[1])) == K('extracted_outputs'), s.rd(oc[1], 'of') == rec)
         obl.append(Obl('C03/%s/returns_the_mapped_filtered_keys_of_this_recording' % U, P, s, ok, oc))
         obl.append(Obl('C03/%s/modifies_nothing' % U, P, s, z3.And(s.g['dmap'][Val.addr(rec)] == g0[0][Val.addr(rec)], s.g['ddom'][Val.addr(rec)] == g0[1][Val.addr(rec)]), oc))
     return [info], obl, {'paths': len(paths), 'forks': ex.forks}
@@ -183,8 +188,15 @@ def post_metadata(props=None):
     spec = PostSpec(base); ex = lib.install(Exec(repo, spec)); base.install(ex)
 
     def c_extract(ex_, s, args, kw, node_, star, dstar):
+        # contract proved in unit `extract`: with direct access it never raises; without, each value is copied and the copy may fail (ordinary)
+        direct = kw.get('direct_access', args[1] if len(args) > 1 else B(False))
         o = s.alloc('extracted_outputs'); s.wr(o, 'of', args[0]); s.set_seq(o, fresh('outputs', SeqV))
-        s.g['extract_call'] = (args[0], kw.get('direct_access', args[1] if len(args) > 1 else B(False))); return [(s, ('val', o))]
+        s.g['extract_call'] = (args[0], direct); outs = []
+        sD, sC = ex_.fork(s, truthy(direct))
+        if sD is not None: outs.append((sD, ('val', o)))
+        if sC is not None:
+            s2 = sC.copy(); outs.append((sC, ('val', o))); outs.append((s2, ('exc', s2.sym_exc(ordinary=True, label='exc_copy'))))
+        return outs
     ex.contracts['TapeRecorder._extract_recorded_output'] = c_extract
     m, cls, node, info = repo.find(TR + '_add_post_operation_metadata')
     st = St(); st.g[OPFLAG] = z3.Array('OPFLAG', z3.IntSort(), z3.BoolSort())
@@ -206,7 +218,7 @@ def post_metadata(props=None):
         oc = ('return', NONE) if oc[0] == 'normal' else oc
         hk = [t for t in s.trace if t['name'] == 'metadata_extractor']
         if oc[0] == 'raise':
-            obl.append(Obl('C18/%s/raises_only_the_extractors_interrupt' % U, P, s,
+            obl.append(Obl('C18/%s/raises_only_the_extractors_interrupt' % U, P + ('C04',), s,
                            z3.Or(*[z3.And(oc[1] == t['outcome'][1], z3.Not(is_exc(oc[1]))) for t in hk if t['outcome'][0] == 'raise']) if hk else z3.BoolVal(False), oc))
             continue
         d1, m1 = s.dcontents(md)
